@@ -19,7 +19,8 @@
 (*                                                                         *)
 (* Where the property text is silent and the library has a definite        *)
 (* behaviour, the behaviour is a NAMED clause below (HashSupport,          *)
-(* LogListAlgorithms, StrictDER, CreateKeys); nothing else is assumed.     *)
+(* LogListAlgorithms, StrictDER, CreateKeys, Unencodable, EntryFromChain); *)
+(* nothing else is assumed.                                                *)
 (***************************************************************************)
 EXTENDS Integers, FiniteSets
 
@@ -67,6 +68,41 @@ SignedFields(k) ==
     [] k = "LogList"    -> {"data"}
     [] k = "Blob"       -> {"data"}
 AsSigned(k) == [f \in SignedFields(k) |-> 0]
+\* clause Unencodable: the signed structures are RFC 5246 presentation-language structures whose variable-length
+\* fields have a floor and a ceiling (CtExtensions <0..2^16-1>, ASN.1Cert <1..2^24-1>, TBSCertificate <1..2^24-1>)
+\* and whose entry_type is an enumeration with two defined members.  A value outside the domain of its field
+\* (extensions of 65536 bytes or more, an empty or over-long certificate / TBSCertificate, an undefined entry type)
+\* has NO encoding: canonical signed bytes do not exist, so nothing can be a valid signature over them and the
+\* verification is refused with an error - like every other error without a trace (SigVerifyHist: Residue).
+\* Field value 2 stands for such a value (0 = the value that was signed, 1 = another encodable value).
+UnserFields(k) ==
+  CASE k = "SCTx509"    -> {"entrytype", "cert", "extensions"}
+    [] k = "SCTprecert" -> {"entrytype", "tbs", "extensions"}
+    [] OTHER -> {}     \* TreeHeadSignature has fixed-width fields only; log list and blob are signed as they are
+\* the verification of this kind of object builds the signed bytes from the object's fields (the others are handed
+\* the bytes)
+Serializes(k) == k \in {"SCTx509", "SCTprecert", "STH"}
+
+(* ---------- how a precertificate entry reaches the verifier ---------- *)
+\* clause EntryFromChain: ctutil.VerifySCT is handed a certificate chain, not a signed_entry.  For a precertificate
+\* the signed TBSCertificate is (RFC 6962 3.2) the precertificate's with exactly the poison extension taken out
+\* and, when it was issued by a Precertificate Signing Certificate (chain[1] carries the CT extended key usage),
+\* with the issuer name and the authority key identifier of the final issuer IN PLACE: every other extension keeps
+\* its bytes and its position.  For a certificate with embedded SCTs it is the certificate's with exactly the SCT
+\* list taken out.  The shape of the chain is a dimension of the case space (the same as spec/ctfe/EntryShapes.tla:
+\* Issuance, Orders); the verdict must not depend on it (ShapeIrrelevant): the harness derives the signed bytes of
+\* every shape independently (harness/ref) and signs those.
+\*   iss    direct: issued by the CA whose key the issuer_key_hash names; viaP: by a precertificate signing
+\*          certificate (key-id AKI); viaPf: the same with a keyid+issuer+serial AKI; viaPm: the CT usage listed
+\*          after another extended key usage
+\*   order  where the RFC 6962 extension that is taken out (poison; SCT list of the embedded form) sits: last (what
+\*          an encoder that appends it produces), directly before the authority key identifier with further
+\*          extensions behind it, or first
+Issuances == {"direct", "viaP", "viaPf", "viaPm"}
+Orders == {"std", "poisonBeforeAki", "poisonFirst"}
+Shape(i, o) == [iss |-> i, order |-> o]
+StdShape == Shape("direct", "std")
+Shapes(k) == IF k = "SCTprecert" THEN {Shape(i, o) : i \in Issuances, o \in Orders} ELSE {StdShape}
 \* SCTs and STHs are verified through a SignatureVerifier, which is subject to the key policy
 ViaVerifier(k) == k \in {"SCTx509", "SCTprecert", "STH"}
 \* clause LogListAlgorithms: a signed log list carries a bare signature value; the algorithm is not
@@ -79,6 +115,7 @@ ObjHashes(k) == IF ImpliedAlg(k) THEN {4} ELSE SupportedHashes
 Mut(m, n, t) == [m |-> m, n |-> n, t |-> t]
 NoMut == Mut("none", 0, "")
 FieldMuts(k) == {Mut("field", 0, f) : f \in SignedFields(k)}
+UnserMuts(k) == {Mut("unser", 0, f) : f \in UnserFields(k)}
 KeyMuts(kt) == {Mut("key-same-type", 0, kt)} \cup {Mut("key-other-type", 0, t) : t \in KeyTypes \ {kt}}
 HashMuts(h) == {Mut("hash", n, "") : n \in HashMutCodes \ {h}}
 SigMuts(s) == {Mut("sig", n, "") : n \in SigMutCodes \ {s}}
@@ -88,28 +125,42 @@ SigMuts(s) == {Mut("sig", n, "") : n \in SigMutCodes \ {s}}
 \* Dss-Sig-Value / Ecdsa-Sig-Value of RFC 3279, and not "bytes trailing a complete value" either),
 \* clause StrictDER: a non-minimal INTEGER or length encoding is not DER.
 \* RSA: flipped bit, one byte short, one byte long (either end), all zero.
-CommonForms == {"bitflip", "truncated", "trailing", "empty"}
+\* "glued": a genuine signature by the right key under the right algorithms over OTHER bytes that end with the
+\* canonical signed bytes (some prefix || signed bytes; in a session the prefix is what an encoder would have
+\* emitted of the object refused just before): valid for those bytes, not for "exactly the canonical signed bytes".
+CommonForms == {"bitflip", "truncated", "trailing", "empty", "glued"}
 DERForms == {"negative-r", "negative-s", "zero-r", "zero-s", "r-plus-order", "inner-trailing", "nonminimal-int", "nonminimal-len"}
 RSAForms == {"leading-zero", "all-zero"}
 Forms(fam) == CommonForms \cup (IF DERValue(fam) THEN DERForms ELSE IF fam = "rsa" THEN RSAForms ELSE {})
 ValueMuts(kt) == {Mut("value", 0, f) : f \in Forms(Fam(kt))}
 Muts(k, kt, h) ==
-  {NoMut} \cup FieldMuts(k) \cup KeyMuts(kt) \cup ValueMuts(kt)
+  {NoMut} \cup FieldMuts(k) \cup UnserMuts(k) \cup KeyMuts(kt) \cup ValueMuts(kt)
   \cup (IF ImpliedAlg(k) THEN {} ELSE HashMuts(h) \cup SigMuts(DeclaredSig(kt)))
+\* The shape of the chain is independent of the algorithm dimensions: the one-call table crosses the non-standard
+\* shapes with everything that touches the signed bytes (no mutation, every signed field changed or made
+\* unencodable, another key, a signature over other bytes) under the hash RFC 6962 logs use; sessions
+\* (SigVerifyHist) take any mutation under any shape.
+ShapeHashes == {4}
+ShapeMuts(k, kt) == {NoMut} \cup FieldMuts(k) \cup UnserMuts(k) \cup {Mut("key-same-type", 0, kt), Mut("value", 0, "glued")}
 
 (* ---------- cases ---------- *)
 \* a verification case: an object of kind `kind`, validly signed by key <<key, 1>> with hash `hash`,
 \* presented after mutation `mut`; `allow` = the caller opted in to non-compliant keys.
 Allows(k) == IF ViaVerifier(k) THEN BOOLEAN ELSE {FALSE}
 VerifyCases ==
-  UNION { UNION { UNION { { [kind |-> k, key |-> kt, hash |-> h, mut |-> mu, allow |-> a] :
+  UNION { UNION { UNION { { [kind |-> k, key |-> kt, hash |-> h, mut |-> mu, allow |-> a, shape |-> StdShape] :
                             mu \in Muts(k, kt, h), a \in Allows(k) }
                           : h \in ObjHashes(k) } : kt \in KeyTypes } : k \in Kinds }
+ShapeCases ==
+  UNION { UNION { { [kind |-> k, key |-> kt, hash |-> h, mut |-> mu, allow |-> a, shape |-> sh] :
+                      mu \in ShapeMuts(k, kt), a \in Allows(k), sh \in Shapes(k) \ {StdShape},
+                      h \in ShapeHashes \cap ObjHashes(k) }
+                  : kt \in KeyTypes } : k \in Kinds }
 \* constructor table and signature creation table, in the same record shape
-CtorCases == { [kind |-> "Ctor", key |-> kt, hash |-> 0, mut |-> NoMut, allow |-> a] : kt \in CtorKeyTypes, a \in BOOLEAN }
-CreateCases == { [kind |-> "Create", key |-> kt, hash |-> h, mut |-> NoMut, allow |-> FALSE] :
+CtorCases == { [kind |-> "Ctor", key |-> kt, hash |-> 0, mut |-> NoMut, allow |-> a, shape |-> StdShape] : kt \in CtorKeyTypes, a \in BOOLEAN }
+CreateCases == { [kind |-> "Create", key |-> kt, hash |-> h, mut |-> NoMut, allow |-> FALSE, shape |-> StdShape] :
                  kt \in KeyTypes, h \in HashMutCodes }
-Cases == VerifyCases \cup CtorCases \cup CreateCases
+Cases == VerifyCases \cup ShapeCases \cup CtorCases \cup CreateCases
 
 (* ---------- what is presented to the verifier ---------- *)
 Key(t, i) == [type |-> t, id |-> i]
@@ -122,7 +173,11 @@ PKey(c) == CASE c.mut.m = "key-same-type"  -> Key(c.key, 2)
 PHash(c) == IF c.mut.m = "hash" THEN c.mut.n ELSE c.hash
 PSig(c) == IF ImpliedAlg(c.kind) THEN SchemeCode(Fam(PKeyType(c)))
            ELSE IF c.mut.m = "sig" THEN c.mut.n ELSE DeclaredSig(c.key)
-PMsg(c) == IF c.mut.m = "field" THEN [AsSigned(c.kind) EXCEPT ![c.mut.t] = 1] ELSE AsSigned(c.kind)
+PMsg(c) == CASE c.mut.m = "field" -> [AsSigned(c.kind) EXCEPT ![c.mut.t] = 1]
+             [] c.mut.m = "unser" -> [AsSigned(c.kind) EXCEPT ![c.mut.t] = 2]      \* Unencodable
+             [] OTHER -> AsSigned(c.kind)
+\* canonical signed bytes exist for the presented fields
+Encodable(msg) == \A f \in DOMAIN msg : msg[f] # 2
 PVal(c) == IF c.mut.m = "value" THEN [Token(c) EXCEPT !.form = c.mut.t] ELSE Token(c)
 Presented(c) == [key |-> PKey(c), hash |-> PHash(c), sig |-> PSig(c), msg |-> PMsg(c), val |-> PVal(c), kind |-> c.kind]
 
@@ -138,7 +193,8 @@ Valid(p) ==
   /\ p.sig = SchemeCode(Fam(p.key.type))          \* declared algorithm and key type agree
   /\ p.sig = p.val.scheme                         \* ... and it is the scheme that made the value
   /\ p.key = p.val.signer                         \* for the given key
-  /\ p.msg = p.val.msg                            \* over exactly the signed bytes
+  /\ Encodable(p.msg)                             \* there are canonical signed bytes (Unencodable)
+  /\ p.msg = p.val.msg                            \* ... exactly those the value was made over
   /\ FormOK(p.val.form, p.val.scheme)
   /\ (ImpliedAlg(p.kind) => Fam(p.key.type) \in LogListKeyFams)    \* LogListAlgorithms
 Expected(c) == IF Valid(Presented(c)) THEN "ok" ELSE "error"
@@ -172,6 +228,12 @@ OkOnlyIfHarmless(c) == IsVerify(c) /\ Expected(c) = "ok" => Harmless(c) /\ Signa
 HarmlessIsOk(c) == IsVerify(c) /\ Harmless(c) /\ Signable(c) => Expected(c) = "ok"
 \* a declared algorithm that does not match the key type is an error, whatever else holds
 MismatchIsError(c) == IsVerify(c) /\ PSig(c) # SchemeCode(Fam(PKeyType(c))) => Expected(c) = "error"
+\* an object without canonical signed bytes is refused, by the verification proper and end to end (Unencodable)
+UnserIsError(c) == IsVerify(c) /\ c.mut.m = "unser" => ~Encodable(PMsg(c)) /\ Expected(c) = "error" /\ EndToEnd(c) = "error"
+\* the verdict does not depend on how the precertificate was issued or where its extensions sit (EntryFromChain)
+ShapeIrrelevant(c) == IsVerify(c) => /\ c.shape \in Shapes(c.kind)
+                                     /\ Expected(c) = Expected([c EXCEPT !.shape = StdShape])
+                                     /\ EndToEnd(c) = EndToEnd([c EXCEPT !.shape = StdShape])
 \* the key policy: opting in only ever adds keys; without it exactly the compliant keys; never other families
 PolicyLaw(kt) == /\ (Constructible(kt, FALSE) => Constructible(kt, TRUE))
                  /\ (Constructible(kt, FALSE) <=> Compliant(kt))
@@ -180,5 +242,5 @@ PolicyLaw(kt) == /\ (Constructible(kt, FALSE) => Constructible(kt, TRUE))
 \* nothing verifies end to end that does not verify, or whose verifier cannot be built
 EndToEndLaw(c) == IsVerify(c) /\ EndToEnd(c) = "ok" => Expected(c) = "ok" /\ Constructible(PKeyType(c), c.allow)
 Law(c) == /\ NoThirdOutcome(c) /\ OkOnlyIfHarmless(c) /\ HarmlessIsOk(c) /\ MismatchIsError(c) /\ EndToEndLaw(c)
-          /\ PolicyLaw(c.key)
+          /\ UnserIsError(c) /\ ShapeIrrelevant(c) /\ PolicyLaw(c.key)
 =============================================================================
